@@ -5,7 +5,7 @@
    lists and ALL fault oracles.  The OS itself is an oracle: crash points are the model's primitive-call
    boundaries (atomicity of rename/write under power loss is not claimed). *)
 From Coq Require Import List Ascii String Bool Arith Lia.
-Require Import GS U20 U20b U20c U20d.
+Require Import GS U20 U20b U20c U20d U20e.
 Import ListNotations.
 
 Section C20.
@@ -94,6 +94,29 @@ Section C20.
     forall n, In n (h_file h :: h_listed h) ->
       fs_get (dest, n) (fs x2) = None /\ fs_get (h_dir h, n) (fs x2) = fs_get (h_dir h, n) (fs x) /\ fs_get (h_dir h, n) (fs x) <> None.
   Proof. exact (C20_copy_then_remove fault). Qed.
+
+  (* a successful move: every listed file and the control file is in the destination with the content it had, and
+     none of them is left in the source directory; other directories are untouched *)
+  Theorem C20_successful_move_is_identical : forall h dest x x', h_dir h <> dest -> NoDup (h_listed h) -> ~ In (h_file h) (h_listed h) ->
+    do_move fault h dest x = (x', true) ->
+    forall n, In n (h_file h :: h_listed h) ->
+      fs_get (dest, n) (fs x') = fs_get (h_dir h, n) (fs x) /\ fs_get (h_dir h, n) (fs x) <> None /\ fs_get (h_dir h, n) (fs x') = None.
+  Proof. exact (C20_move_identical fault). Qed.
+  Theorem C20_move_leaves_other_directories : forall h dest x x' ok e, do_move fault h dest x = (x', ok) ->
+    fst e <> h_dir h -> fst e <> dest -> fs_get e (fs x') = fs_get e (fs x).
+  Proof. exact (C20_move_frame fault). Qed.
+  (* more histories through one handle *)
+  Theorem C20_move_then_remove_through_one_handle : forall h dest x x1 x2, h_dir h <> dest -> NoDup (h_listed h) -> ~ In (h_file h) (h_listed h) ->
+    do_move fault h dest x = (x1, true) -> do_remove fault (after h dest true) x1 = (x2, true) ->
+    forall n, In n (h_file h :: h_listed h) -> fs_get (dest, n) (fs x2) = None /\ fs_get (h_dir h, n) (fs x2) = None.
+  Proof. exact (C20_move_then_remove fault). Qed.
+  Theorem C20_copy_then_move_through_one_handle : forall h d1 d2 x x1 x2, h_dir h <> d1 -> h_dir h <> d2 -> d1 <> d2 ->
+    NoDup (h_listed h) -> ~ In (h_file h) (h_listed h) ->
+    do_copy fault h d1 x = (x1, true) -> do_move fault (after h d1 true) d2 x1 = (x2, true) ->
+    forall n, In n (h_file h :: h_listed h) ->
+      fs_get (d2, n) (fs x2) = fs_get (h_dir h, n) (fs x) /\ fs_get (h_dir h, n) (fs x) <> None /\
+      fs_get (d1, n) (fs x2) = None /\ fs_get (h_dir h, n) (fs x2) = fs_get (h_dir h, n) (fs x).
+  Proof. exact (C20_copy_then_move fault). Qed.
 End C20.
 Print Assumptions C20_control_file_last_copy.
 Print Assumptions C20_failed_copy_leaves_no_control_file.
@@ -102,3 +125,5 @@ Print Assumptions C20_remove_control_file_last.
 Print Assumptions C20_confined_copy.
 Print Assumptions C20_confined_remove.
 Print Assumptions C20_copy_then_remove_through_one_handle.
+Print Assumptions C20_successful_move_is_identical.
+Print Assumptions C20_copy_then_move_through_one_handle.
